@@ -89,10 +89,20 @@ def run(ctx, ID, theorems, props_file, profile, length, n_quick, n_thorough, pre
     return st
 
 
-def replay(ctx, ID, predicate, with_times=False):
+def replay(ctx, ID, predicate, with_times=False, known_matchers=None):
     d = ctx.replay
     r = ctx.run_impl("nixrun.py", {"replay": [d["input"]["history"]], "times": with_times})[0]
     v = predicate(r)
+    # violations inside the domain of a recorded finding are reported as such, as in a full run
+    kf = core.load_known(ID)
+    rest = []
+    for x in v:
+        e = next((e for e in kf if (known_matchers or {}).get(e.get("match")) and known_matchers[e["match"]](x, r)), None)
+        if e is not None:
+            print("KNOWN-FINDING: property=%s %s" % (ID, e["what"]))
+        else:
+            rest.append(x)
+    v = rest
     print("replay: %d ops, predicate violations: %r" % (len(r["ops"]), v[:3]))
     if v:
         print("VIOLATION property=%s replay=%s" % (ID, os.path.abspath(sys.argv[-1])))
